@@ -33,6 +33,7 @@ DEADLINE = {"quick": 70, "thorough": 1200}
 QUICK_SC = ["ssl3-rsa", "tls10-dhe_rsa", "tls11-ecdhe_ecdsa", "tls12-rsa",
             "tls12-ecdhe_rsa-clientauth", "tls12-rsa-clientauth-ecdsa",
             "tls12-dhe_dsa", "tls12-srp", "tls12-srp_rsa", "tls12-dh_anon",
+            "tls10-ecdh_anon",
             "tls12-resume-id", "tls12-resume-ticket", "tls12-ecdhe_rsa-npn",
             "tls12-tickets-issue", "tls13-rsa", "tls13-hrr", "tls13-psk_dhe",
             "tls13-resume-ticket", "tls13-clientauth", "tls13-alpn-tickets"]
@@ -95,28 +96,7 @@ def _norm(x, ver, sender):
 def _complete(seq, honest, sender, ver):
     """is `seq` (tokens) exactly one complete legal handshake flight set
     for this scenario, from the receiver's point of view?"""
-    s = " ".join(tname(t) for t in seq)
-    n = _norm(seq, ver, sender)
-    h = _norm(honest, ver, sender)
-    while h and h[-1] == "NewSessionTicket" and ver == (3, 4):
-        h.pop()            # tickets after Finished are post-handshake
-    if "Certificate(empty)" in n:
-        # a peer without a certificate: empty Certificate, no Verify
-        if "CertificateVerify" in n or sender != "client":
-            return False
-        n = [("Certificate" if t == "Certificate(empty)" else t) for t in n]
-        h = [t for t in h if t != "CertificateVerify"]
-        h = [("Certificate" if t == "CompressedCertificate" else t)
-             for t in h]
-        return n == h
-    if n == h:
-        return True
-    if sender == "server":
-        # CertificateRequest is the server's free choice
-        h2 = [t for t in h if t != "CertificateRequest"]
-        if n == h2:
-            return True
-    return False
+    return _norm(seq, ver, sender) in variants(honest, sender, ver)
 
 
 def split_language(seq, honest, sender, ver):
@@ -129,6 +109,52 @@ def split_language(seq, honest, sender, ver):
         if _complete(seq[:k], honest, sender, ver):
             return k, names[k:]
     return None, None
+
+
+def variants(honest, sender, ver):
+    """normalised complete sequences the receiver may accept in place of
+    the honest one"""
+    h = _norm(honest, ver, sender)
+    while h and h[-1] == "NewSessionTicket" and ver == (3, 4):
+        h.pop()
+    out = [h]
+    if sender == "server":
+        # CertificateRequest is the server's free choice wherever it
+        # authenticates with a certificate (not anon, not PSK; tlslite also
+        # refuses it for SRP suites, which is recorded, not required)
+        out.append([t for t in h if t != "CertificateRequest"])
+        if "CertificateRequest" not in h and "ServerKeyExchange(srp)" not in h:
+            for anchor, before in (("ServerHelloDone", True),
+                                   ("EncryptedExtensions", False)):
+                if anchor in h and ("Certificate" in h or
+                                    "CompressedCertificate" in h):
+                    i = h.index(anchor) + (0 if before else 1)
+                    out.append(h[:i] + ["CertificateRequest"] + h[i:])
+    else:
+        e = [t for t in h if t != "CertificateVerify"]
+        e = [("Certificate(empty)" if t in ("Certificate",
+                                            "CompressedCertificate") else t)
+             for t in e]
+        out.append(e)
+    return out
+
+
+def first_offending(seq, honest, sender, ver):
+    """index (into seq) of the first message after which the received
+    sequence can no longer be extended to a legal one; None if every prefix
+    is still viable (the receiver may legitimately be waiting)"""
+    vs = variants(honest, sender, ver)
+    idx = []
+    n = []
+    for i, t in enumerate(seq):
+        x = _norm([t], ver, sender)
+        if x:
+            idx.append(i)
+            n.append(x[0])
+    for k in range(1, len(n) + 1):
+        if not any(v[:k] == n[:k] for v in vs):
+            return idx[k - 1]
+    return None
 
 
 def in_language(seq, honest, role_sender, ver, tags, kind):
@@ -152,15 +178,19 @@ INSERTS = {
     "EmptyCertificate13": (22, wire.hs_msg(11, b"\x00\x00\x00\x00")),
     "CertificateRequest12": (22, wire.hs_msg(
         13, b"\x01\x01\x00\x02\x04\x01\x00\x00")),
+    "CertificateRequest10": (22, wire.hs_msg(13, b"\x01\x01\x00\x00")),
     "appdata": (23, b"early data"),
+    "appdata_empty": (23, b""),
     "EndOfEarlyData": (22, wire.hs_msg(5, b"")),
 }
 
 
-TOKNAME = {"NewSessionTicket12": "NewSessionTicket", "NewSessionTicket13": "NewSessionTicket",
+TOKNAME = {"CertificateRequest10": "CertificateRequest",
+           "CertificateRequest12": "CertificateRequest",
+           "NewSessionTicket12": "NewSessionTicket", "NewSessionTicket13": "NewSessionTicket",
            "EmptyCertificate": "Certificate(empty)",
            "EmptyCertificate13": "Certificate(empty)",
-           "appdata": "app", "Finished12": "Finished(bad)",
+           "appdata": "app", "appdata_empty": "app", "Finished12": "Finished(bad)",
            "Finished32": "Finished(bad)"}
 
 
@@ -177,6 +207,7 @@ def deviations(n, thorough):
         for name in ("HelloRequest", "ServerHelloDone", "Finished12",
                      "KeyUpdate", "EmptyCertificate"):
             out.append(("replace", i, name))
+        out.append(("straddle", i))
         if thorough:
             for j in range(n):
                 if j not in (i, i + 1) and abs(i - j) <= 4:
@@ -184,10 +215,15 @@ def deviations(n, thorough):
     return out
 
 
+KU = wire.hs_msg(24, b"\x00")
+
+
 class Rewriter(object):
-    def __init__(self, devs):
+    def __init__(self, devs, hon_log=None):
         self.devs = devs
         self.held = {}
+        self.hon_log = hon_log or []
+        self.dev = None        # the adv.Deviant, set by run_dev
 
     def __call__(self, i, t, msg, raw):
         out = [msg]
@@ -216,6 +252,30 @@ class Rewriter(object):
                 elif d[2] == i and "move" in self.held:
                     out = [self.held.pop("move")] + out
                     touched = True
+            elif k == "straddle":
+                # RFC 8446 5.1: a handshake message must not span a key
+                # change.  The first two bytes of the following message
+                # travel in the same record as message i (old keys), the
+                # rest under the new keys.  The byte stream, hence the
+                # transcript, is unchanged.
+                if d[1] == i:
+                    if i + 1 < len(self.hon_log):
+                        pre = self.hon_log[i + 1][2][:2]
+                    else:
+                        pre = KU[:2]
+                        self.dev.after.append(adv.Raw(22, KU[2:],
+                                                      "frag+KeyUpdate"))
+                    self.held["straddle"] = pre
+                    out = [adv.Raw(msg.contentType, raw + pre,
+                                   tname(t) + "+frag")]
+                    touched = True
+                elif d[1] + 1 == i and "straddle" in self.held:
+                    pre = self.held.pop("straddle")
+                    if raw[:2] == pre and msg.contentType == 22:
+                        out = [adv.Raw(22, raw[2:], "frag+" + tname(t))]
+                    else:
+                        out = [adv.Raw(22, b"", "frag-mismatch")]
+                    touched = True
             elif k == "insert" and d[1] == i:
                 ct, b = INSERTS[d[2]]
                 out = [adv.Raw(ct, b, TOKNAME.get(d[2]))] + out
@@ -227,13 +287,16 @@ class Rewriter(object):
         return out if touched else None
 
 
-def run_dev(sc, label, role, devs):
+def run_dev(sc, label, role, devs, hon_log=None):
     """role: who deviates.  returns (R, Deviant)"""
     holder = {}
 
     def tweak(p, fl):
         conn = p.c if role == "client" else p.s
-        holder["d"] = adv.Deviant(conn, Rewriter(devs) if devs else None)
+        rw = Rewriter(devs, hon_log) if devs else None
+        holder["d"] = adv.Deviant(conn, rw)
+        if rw is not None:
+            rw.dev = holder["d"]
     R = scn.run(sc, label, tweak=tweak, max_steps=20000)
     return R, holder["d"]
 
@@ -268,11 +331,32 @@ def make_cases(ctx):
                 continue
             n = len([x for x in d.log])
             devs = deviations(n, not ctx.quick)
+            toks = [tname(t) for (_, t, _) in d.log]
+
+            def keychange(i):
+                # messages after which the sender switches keys (TLS 1.3)
+                if sc.ver != (3, 4):
+                    return False
+                if toks[i] == "Finished":
+                    return True
+                return toks[i] == "ServerHello" and \
+                    "ServerHello" not in toks[i + 1:]
+            devs = [x for x in devs if x[0] != "straddle" or keychange(x[1])]
             if ctx.quick:
                 rng.shuffle(devs)
-                keep = [x for x in devs if x[0] in ("skip", "dup", "swap")]
-                rest = [x for x in devs if x[0] not in ("skip", "dup",
-                                                        "swap")]
+
+                def always(x):
+                    if x[0] in ("skip", "dup", "swap", "straddle"):
+                        return True
+                    # an unsolicited CertificateRequest where the key
+                    # exchange has no place for one
+                    return x[0] == "insert" and x[2] == (
+                        "CertificateRequest12" if sc.ver >= (3, 3) else
+                        "CertificateRequest10") \
+                        and toks[x[1]] == "ServerHelloDone" \
+                        and "CertificateRequest" not in toks
+                keep = [x for x in devs if always(x)]
+                rest = [x for x in devs if not always(x)]
                 devs = keep + rest[:18]
             for j, dv in enumerate(devs):
                 yield "%s-%s-%d" % (name, role, j), dict(
@@ -399,7 +483,7 @@ def run_case(ctx, cid, P):
     if not (R0.c_hs and R0.s_hs):
         return
     devs = [tuple(x) for x in P["devs"]]
-    R, d = run_dev(sc, label, role, devs)
+    R, d = run_dev(sc, label, role, devs, d0.log)
     if not d.applied:
         ctx.count("not_applied")
         return
@@ -465,6 +549,41 @@ def run_case(ctx, cid, P):
             verdict = "rejected:" + cls
             if cls == "local_alert":
                 ctx.cell("alert", "%s:%d" % (vrole, vt.exc.description))
+            off = first_offending(seq, hon_seq, role, sc.ver)
+            at = R.tc if role == "client" else R.ts
+            acls = mon.classify_exc(at.exc) if at.exc else at.status
+            delivered = not d.conn._buffer and not d.pending and \
+                not acls.startswith("undocumented")
+            names = [tname(t) for t in seq]
+            garbage = (sc.ver < (3, 4) and cls == "stalled" and
+                       off is not None and "ccs" not in names[:off] and
+                       "ccs" in [tname(t) for t in hon_seq])
+            if acls.startswith("undocumented"):
+                ctx.count("adversary_crashed:" + acls)
+            if garbage:
+                # the adversary switched its write keys where it would have
+                # sent ChangeCipherSpec; the victim, still without a read
+                # cipher, sees ciphertext as an incomplete handshake message
+                # and waits for the rest of it
+                ctx.count("ciphertext_in_plaintext_epoch_victim_waits")
+            elif off is not None and delivered and cls != "local_alert" \
+                    and not cls.startswith("undocumented") \
+                    and not cls.startswith("tls:"):
+                # the offending message reached the victim (ordered
+                # stream) and it did not answer with its own fatal alert:
+                # it went on with the handshake and the failure came from
+                # elsewhere (the peer's alert, a close, a stall)
+                ctx.count("continued_past_offending")
+                ctx.violation(dict(key, clause="continued_past_illegal_message",
+                                   offending=tname(seq[off]), how=cls), W,
+                              "victim %s did not reject %s (position %d of "
+                              "%s); it ended with %s" % (
+                                  vrole, tname(seq[off]), off,
+                                  " ".join(W["emitted"]), cls))
+            elif off is not None and cls == "local_alert":
+                ctx.count("offending_answered_with_alert")
+            elif off is None:
+                ctx.count("truncated_sequence_victim_waits")
     if not (legal and vt.status == "done"):
         if cls.startswith("undocumented"):
             ctx.violation(dict(key, clause="undocumented_exception",
